@@ -316,3 +316,54 @@ def option_encoding(si: int, ei: int, cls: int) -> bool:
         except Exception:
             ok = False
     return _res(ok)
+
+
+# ---- template *files*: how the source bytes were decoded leaves no trace in what is rendered ----------------
+FILE_SOURCES = ['Dear ${v}, caf\xe9 Ж <b>&amp;</b>\n', '<?xml version="1.0"?>\n<p tal:content="v">x</p> caf\xe9 Ж\n']
+
+
+def file_source_bytes(row: int, prefix_row: int, si: int, ei: int, text_mode: bool) -> bool:
+    """
+    pre: 0 <= row < 6 and 0 <= prefix_row < 5 and 0 <= si < 2 and 0 <= ei < 4
+    post: _
+    """
+    # the same document stored with / without a byte-order mark, or as BOM-less UTF-16/32 after an XML
+    # declaration, and served by PageTemplateFile (str) / PageTextTemplateFile (bytes in the encoding option,
+    # utf-8 by default): the result is what the str document renders to
+    import os
+    import shutil
+    import tempfile
+    from chameleon import PageTemplate, PageTemplateFile, PageTextTemplate, PageTextTemplateFile
+    from vlib.notrace import NoTracing
+    bom, codec, _names = pick(ROWS, row)
+    text = pick(FILE_SOURCES, si)
+    enc = pick(OPT_ENCODINGS, ei)
+    if enc == 'ascii':
+        enc = 'utf-8-sig'
+    if enc == 'latin-1':
+        text = text.replace('Ж', 'Z')          # the output encoding must be able to express the document
+    if row == 0 and prefix_row > 0 and si == 1:
+        body = text.encode(pick(NOBOM_PREFIX, prefix_row - 1))
+    elif row == 0:
+        body = text.encode('utf-8')
+    else:
+        body = bom + text.encode(codec)
+    with NoTracing():
+        kw = {} if enc is None else {'encoding': enc}
+        d = tempfile.mkdtemp(prefix='verif-c17-')
+        try:
+            path = os.path.join(d, 'doc.txt')
+            with open(path, 'wb') as f:
+                f.write(body)
+            if text_mode:
+                got = PageTextTemplateFile(path, **kw).render(v='<\xe9>')
+                want = PageTextTemplate(text, **kw).render(v='<\xe9>').encode(enc or 'utf-8')
+            else:
+                got = PageTemplateFile(path, **kw).render(v='<\xe9>')
+                want = PageTemplate(text, **kw).render(v='<\xe9>')
+            ok = got == want
+        except Exception:
+            ok = False
+        finally:
+            shutil.rmtree(d, True)
+    return _res(ok)
